@@ -1122,8 +1122,11 @@ def unit_reader(ctx, harness, stats):
         stats["nontrivial"].add(("dec", vlib.sha(l)[:16]))
         if a.split(" ")[0] != want:
             stats["disagreements_checked"] += 1
-            report(ctx, "dec-short", "dec:short-record:%s-instead-of-%s" % (a[:8], want), "read_header on a stream ending in a %d-byte record (%s) answers %s, "
-                   "must be %s: a damaged/truncated archive is taken for a clean end" % (len(b) % 512, "all zero" if not any(b[-(len(b) % 512 or 512):]) else "not zero", a[:60], want), {"unit": [l]})
+            kind = ("a stream of %d bytes that ends inside an extension record ('%s', size field %s) or its padding" % (
+                len(b), b[156:157].decode("latin1"), b[124:135].decode("latin1").lstrip("0") or "0")) if len(b) >= 512 and b[156:157] in (b"L", b"K", b"x", b"g") else (
+                "a stream ending in a %d-byte record (%s)" % (len(b) % 512, "all zero" if not any(b[-(len(b) % 512 or 512):]) else "not zero"))
+            report(ctx, "dec-short", "dec:short-record:%s-instead-of-%s" % (a[:8], want), "read_header on %s answers %s, must be %s%s" % (
+                kind, a[:60], want, ": a damaged/truncated archive is taken for a clean end" if want == "err" else ""), {"unit": [l]})
         elif a != m:
             stats["disagreements_checked"] += 1
             report(ctx, "dec-short-corr", "dec-short:" + vlib.sha(l)[:12], "read_header on a short record: code %s model %s" % (a[:60], m[:60]), {"unit": [l]}, found_input=False)
